@@ -1053,6 +1053,10 @@ main(int argc, char **argv) {
   for (int i = 0; i < ns; i++)
     if (vxp_replay_if_match(spaces[i].name, one_case, &spaces[i]))
       return 0;
+  if (vx_replay_path()) {
+    fprintf(stderr, "replay file names no space of this stage\n");
+    return 3;
+  }
   uint64_t done = 0;
   for (int i = 0; i < ns; i++) {
     struct vxp_config c = {.space = spaces[i].name, .total = spaces[i].total};
